@@ -368,7 +368,7 @@ def absent_key_guard(view, f, ev):
     return False, "neither a VacantEntry insert, nor guarded by contains_key on the same key, nor inspected"
 
 
-def r_tables(ctx, view, want=("R-GROW", "R-TORN")):
+def r_tables(ctx, view, want=("R-GROW", "R-TORN"), only=None):
     """runs the automaton over every body that writes a table or structurally writes the map"""
     prog = view.prog
     fx = view.fx
@@ -378,6 +378,8 @@ def r_tables(ctx, view, want=("R-GROW", "R-TORN")):
     for f in sorted(prog.fns.values(), key=lambda x: x.key):
         evs = fx.events(f)
         if not any(e["kind"] in ("tw",) or (e["kind"] == "mw" and e.get("mclass") in ("grow", "shrink", "clear", "retain")) for e in evs):
+            continue
+        if only and not only(f):
             continue
         n_bodies += 1
         published = published_store(view, f)
@@ -426,11 +428,12 @@ def r_tables(ctx, view, want=("R-GROW", "R-TORN")):
                 ctx.ob("R-GROW", "%s:g1:%s" % (key, e["name"]), bool(ok), f.loc(e["span"]), "map growth `%s`: %s" % (e["name"], why))
             if rp is not None:
                 ctx.ob("R-GROW", key + ":retain-group", rp[0], f.loc(), rp[1])
-    ctx.floor("R-GROW/R-TORN:bodies", n_bodies, 14)
-    if "R-TORN" in want:
+    ctx.floor("R-GROW/R-TORN:bodies", n_bodies, 14 if not only else 1)
+    if "R-TORN" in want and not only:
         ctx.floor("R-TORN:user-code-sites", n_mruc_sites, 10)
     # sealed primitive: Store::swap is exactly qp.swap(heap[a], heap[b]); heap.swap(a, b)
-    swap_shape(ctx, view, want)
+    if not only:
+        swap_shape(ctx, view, want)
 
 
 def explore_tca(view, f, marks, init, step, g1_obs, rp):
